@@ -131,3 +131,54 @@ add(Contract(
                         f"and self.__rules__[i].enabled == old(self.__rules__[i].enabled) and self.__rules__[i].alt == old(self.__rules__[i].alt))"),
     ],
 ))
+
+# ------------------------------------------------------------------ compiled chains: __compile__ and getRules (C11 core, C10, C13)
+specfun("Filter", '''
+def Filter(rules, k, c):
+    """functions of the enabled rules among the first k that belong to chain c ('' = every enabled rule), in order"""
+    return [] if k <= 0 else Filter(rules, k - 1, c) + ([rules[k - 1].fn] if (rules[k - 1].enabled and (c == "" or c in rules[k - 1].alt)) else [])
+''', result="seq", reads=["enabled", "fn", "alt"])
+
+RI = ("RI", f"self.__cache__ is None or forall_atoms(c, cache_get(self.__cache__, c) == Filter(self.__rules__, {N}, c))")
+SEL = "(self.__rules__[i].enabled and (c == '' or c in self.__rules__[i].alt))"
+COLLECTED = "forall(i, 0, {upto}, implies(self.__rules__[i].enabled, forall(j, 0, altlen(self.__rules__[i].alt), altelem(self.__rules__[i].alt, j) in chains)))"
+DONE_OK = [
+    ("done-subset", "forall_atoms(c, implies(c in _done2, c in chains))"),
+    ("cache-keys", "forall_atoms(c, iff(c in cache, c in _done2))"),
+    ("cache-done", f"forall_atoms(c, implies(c in _done2, cache_get(cache, c) == Filter(self.__rules__, {N}, c)))"),
+]
+add(Contract(
+    R + "__compile__", params={"self": "obj:Ruler"}, props=["C11", "C10", "C13"],
+    modifies=["self.__cache__"],
+    ghost={"lemmas": [{"name": "no-selected-rule-empty-chain", "vars": {"k": "int", "c": "atom"}, "induct": "k",
+                       "stmt": f"implies(k <= {N} and forall(i, 0, k, not {SEL}), Filter(self.__rules__, k, c) == [])"}]},
+    ensures=UNCHANGED + [
+        ("published", "self.__cache__ is not None"),
+        ("cache-is-filter", f"forall_atoms(c, cache_get(self.__cache__, c) == Filter(self.__rules__, {N}, c))"),
+    ],
+    loops={
+        0: {"types": {"rule": "none", "name": "atom"},
+            "inv": [("empty-chain", "'' in chains"), ("collected", COLLECTED.format(upto="_it0")), ("it-range", f"_it0 <= {N}")] + UNCHANGED,
+            "dec": f"{N} - _it0"},
+        1: {"types": {"name": "atom"},
+            "inv": [("empty-chain", "'' in chains"), ("collected", COLLECTED.format(upto="_it0")), ("it0-range", f"_it0 < {N} and self.__rules__[_it0].enabled"),
+                    ("partial", "forall(j, 0, _it1, altelem(self.__rules__[_it0].alt, j) in chains)"), ("it1-range", "_it1 <= altlen(self.__rules__[_it0].alt)")] + UNCHANGED,
+            "dec": "altlen(self.__rules__[_it0].alt) - _it1"},
+        2: {"types": {"chain": "atom", "rule": "none"},
+            "inv": DONE_OK + UNCHANGED,
+            "dec": None},
+        3: {"types": {"rule": "none"},
+            "inv": [("chain-pending", "chain in chains and not (chain in _done2) and chain in cache"),
+                    ("partial", "cache_get(cache, chain) == Filter(self.__rules__, _it3, chain)"), ("it-range", f"_it3 <= {N}"),
+                    ("others-keys", "forall_atoms(c, implies(c != chain, iff(c in cache, c in _done2)))"),
+                    ("others-done", f"forall_atoms(c, implies(c in _done2, cache_get(cache, c) == Filter(self.__rules__, {N}, c)))"),
+                    ("done-subset", "forall_atoms(c, implies(c in _done2, c in chains))")] + UNCHANGED,
+            "dec": f"{N} - _it3"},
+    },
+))
+add(Contract(
+    R + "getRules", params={"self": "obj:Ruler", "chainName": "atom"}, props=["C11", "C10", "C13"],
+    modifies=["self.__cache__"],
+    requires=[RI],
+    ensures=UNCHANGED + [RI, ("applied-is-filter", f"result == Filter(self.__rules__, {N}, chainName)")],
+))
